@@ -39,7 +39,8 @@ Big-step semantics.  `call`: the callee may store anything (of the declared type
 into the fields of `this`, nothing else (scalar arguments are passed by value).
 `yield` / `cocall`: across a suspension the caller may change every argument and
 (through other calls) every field; locals are preserved (doc/note/coroutines.md).
-Assertions have no run-time effect.  `Γ`: the declared types.
+`callAssign`: as `call`, then the target variable receives any value of the callee's
+declared result type.  Assertions have no run-time effect.  `Γ`: the declared types.
 -/
 inductive Exec (Γ : Ctx) : Env → FStmt → Out → Prop
   | skip {env} : Exec Γ env .skip (.norm env)
@@ -57,6 +58,8 @@ inductive Exec (Γ : Ctx) : Env → FStmt → Out → Prop
   | jumpB {env k} : Exec Γ env (.jump true k) (.brk k env)
   | jumpC {env k} : Exec Γ env (.jump false k) (.cont k env)
   | call {env env' args} : Havoc isThisName Γ env env' → Exec Γ env (.call args) (.norm env')
+  | callAssign {env env' n t retTy args v} : Havoc isThisName Γ env env' → inType retTy v →
+      Exec Γ env (.callAssign (.var n t) retTy args) (.norm (upd env' n v))
   | yield {env env'} : Havoc isSuspName Γ env env' → Exec Γ env .yield (.norm env')
   | cocall {env env' args} : Havoc isSuspName Γ env env' → Exec Γ env (.cocall args) (.norm env')
   | ret {env e} : Exec Γ env (.ret e) (.ret env)
@@ -131,6 +134,7 @@ theorem hasBreak_of_exec {Γ : Ctx} {env : Env} {s : FStmt} {o : Out} (h : Exec 
   | jumpB => intro k env1 ho; cases ho; simp [hasBreak]
   | jumpC => intro k env1 ho; cases ho
   | call => intro k env1 ho; cases ho
+  | callAssign => intro k env1 ho; cases ho
   | yield => intro k env1 ho; cases ho
   | cocall => intro k env1 ho; cases ho
   | ret => intro k env1 ho; cases ho
@@ -184,6 +188,7 @@ theorem terminates_no_norm {Γ : Ctx} {env : Env} {s : FStmt} {o : Out} (h : Exe
   | jumpB => intro env1 ho; cases ho
   | jumpC => intro env1 ho; cases ho
   | call => intro env1 _ ht; simp [terminates] at ht
+  | callAssign => intro env1 _ ht; simp [terminates] at ht
   | yield => intro env1 _ ht; simp [terminates] at ht
   | cocall => intro env1 _ ht; simp [terminates] at ht
   | ret => intro env1 ho; cases ho
